@@ -94,6 +94,9 @@ func runC16(r *simkit.Run) {
 				c.kind = "close"
 			case k == 16 && withMalformed:
 				c.kind, c.cut = "execute-malformed", tp.Range(1, 6)
+				if tp.Chance(1, 3) {
+					c.cut = -(4 + tp.Choose(5)) // only the statement id and 0-4 bytes of the header arrive
+				}
 				for x := 0; x < 3; x++ {
 					c.vals = append(c.vals, tp.Choose(3))
 				}
@@ -202,7 +205,10 @@ func runC16(r *simkit.Run) {
 					}
 					payload := mycli.BuildExecute(s.id, params, bound)
 					malformed := cm.kind == "execute-malformed" && cm.cut < len(payload)-9
-					if malformed {
+					if malformed && cm.cut < 0 {
+						payload = payload[:-cm.cut]
+						r.Probe("execute-packet-cut-inside-its-header")
+					} else if malformed {
 						payload = payload[:len(payload)-cm.cut]
 					}
 					res, err := c.ExecuteRaw(payload)
@@ -269,8 +275,15 @@ func runC16(r *simkit.Run) {
 					for x := 0; x < cm.chunks; x++ {
 						valueSeq++
 						chunk := []byte(fmt.Sprintf("L%dx%d", i, valueSeq))
+						if tp.Chance(1, 5) {
+							chunk = []byte{} // an empty chunk: the value so far is the empty string, not "no long data"
+							r.Probe("empty-long-data-chunk")
+						}
 						c.SendLongData(s.id, uint16(cm.n), chunk)
 						if s.known {
+							if s.long[cm.n] == nil {
+								s.long[cm.n] = []byte{}
+							}
 							s.long[cm.n] = append(s.long[cm.n], chunk...)
 						}
 					}
